@@ -2,6 +2,7 @@ import Gpc.Model.Compare
 import Gpc.Spec.CaseFull
 import Gpc.Ucd.CaseFull
 import Gpc.Props.C11
+import Gpc.Props.C07
 /-!
 # C13 — comparison is a consistent total order; sorting returns a sorted permutation
 -/
@@ -249,5 +250,108 @@ example : compare true false false .n [0x61, 0, 0x62] [0x61, 0, 0x63] = -1 := by
 -- Turkic folding: I folds to dotless i under tr only
 example : compare true false false .tr [0x49] [0x131] = 0 ∧ compare true false false .n [0x49] [0x131] ≠ 0 := by decide +kernel
 example : sort true false false .n [[0x62], [0x41], [0x61], [0x42]] = [[0x41], [0x61], [0x62], [0x42]] := by decide +kernel
+
+end Gpc.Compare
+
+
+/-! ## the byte loop of the plain comparison -/
+namespace Gpc.Compare
+open Gpc.Utf
+
+def encAll (cps : List Nat) : List UInt8 := cps.flatMap encodeU8
+
+theorem sgn_of_neg (x : Int) (h : x < 0) : sgn x = -1 := by simp [sgn, h]
+theorem sgn_of_pos (x : Int) (h : 0 < x) : sgn x = 1 := by
+  unfold sgn
+  rw [if_neg (by omega), if_neg (by omega)]
+
+theorem encAll_length_zero (b : List Nat) : (encAll b).length = 0 ↔ b = [] := by
+  cases b with
+  | nil => simp [encAll]
+  | cons c cs =>
+    have := Gpc.Utf.byteLen_pos c
+    simp [encAll, List.length_append, Gpc.Utf.encodeU8_length]; omega
+
+/-- the byte loop decides exactly as the code point comparison of the decoded strings -/
+theorem cmpBytes_encoding (a b : List Nat) (ha : ∀ c ∈ a, c < 0x110000) (hb : ∀ c ∈ b, c < 0x110000)
+    (fuel : Nat) (hf : a.length < fuel) :
+    ∃ r, cmpBytes (encAll a) (encAll b) fuel = some r ∧ sgn r = sgn (cmpCps a b) := by
+  induction a generalizing b fuel with
+  | nil =>
+    cases fuel with
+    | zero => omega
+    | succ f =>
+      refine ⟨(((encAll ([] : List Nat)).length : Int) - ((encAll b).length : Int)), by simp [cmpBytes, encAll], ?_⟩
+      cases b with
+      | nil => simp [encAll, cmpCps]
+      | cons d ds =>
+        have := Gpc.Utf.byteLen_pos d
+        have hl : 0 < (encAll (d :: ds)).length := by
+          simp [encAll, List.length_append, Gpc.Utf.encodeU8_length]; omega
+        have hneg : (((encAll ([] : List Nat)).length : Int) - ((encAll (d :: ds)).length : Int)) < 0 := by
+          simp only [encAll, List.flatMap_nil, List.length_nil] at hl ⊢; omega
+        rw [sgn_of_neg _ hneg]; rfl
+  | cons c cs ih =>
+    cases fuel with
+    | zero => omega
+    | succ f =>
+      have hc := ha c (by simp)
+      have hne := Gpc.Utf.encodeU8_ne_nil c
+      cases b with
+      | nil =>
+        have := Gpc.Utf.byteLen_pos c
+        have hl : 0 < (encAll (c :: cs)).length := by
+          simp [encAll, List.length_append, Gpc.Utf.encodeU8_length]; omega
+        have hemp : (encAll (c :: cs)).isEmpty = false := by
+          cases h : encAll (c :: cs) with
+          | nil => rw [h] at hl; simp at hl
+          | cons _ _ => rfl
+        refine ⟨(((encAll (c :: cs)).length : Int) - ((encAll ([] : List Nat)).length : Int)), by simp [cmpBytes, hemp, encAll], ?_⟩
+        have hposv : 0 < (((encAll (c :: cs)).length : Int) - ((encAll ([] : List Nat)).length : Int)) := by
+          simp only [encAll, List.flatMap_nil, List.length_nil] at hl ⊢; omega
+        rw [sgn_of_pos _ hposv]; rfl
+      | cons d ds =>
+        have hd := hb d (by simp)
+        have e1 : encAll (c :: cs) = encodeU8 c ++ encAll cs := by simp [encAll]
+        have e2 : encAll (d :: ds) = encodeU8 d ++ encAll ds := by simp [encAll]
+        have n1 : (encAll (c :: cs)).isEmpty = false := by
+          rw [e1]; cases h : encodeU8 c with
+          | nil => exact absurd h hne
+          | cons _ _ => rfl
+        have n2 : (encAll (d :: ds)).isEmpty = false := by
+          rw [e2]; cases h : encodeU8 d with
+          | nil => exact absurd h (Gpc.Utf.encodeU8_ne_nil d)
+          | cons _ _ => rfl
+        have d1 := Gpc.Utf.decode_encode c hc (encAll cs)
+        have d2 := Gpc.Utf.decode_encode d hd (encAll ds)
+        by_cases hcd : c = d
+        · subst hcd
+          have hpos : (encodeU8 c).length ≠ 0 := by
+            rw [Gpc.Utf.encodeU8_length]; have := Gpc.Utf.byteLen_pos c; omega
+          obtain ⟨r, hr, hs⟩ := ih ds (fun x hx => ha x (by simp [hx])) (fun x hx => hb x (by simp [hx])) f (by simp at hf; omega)
+          refine ⟨r, ?_, by simpa [cmpCps] using hs⟩
+          simp only [cmpBytes, n1, n2, Bool.or_self, Bool.false_eq_true, if_false]
+          rw [e1, e2, d1, d2]
+          simp only [ne_eq, not_true_eq_false, if_false, hpos, List.drop_left']
+          exact hr
+        · refine ⟨(c : Int) - (d : Int), ?_, by simp [cmpCps, hcd]⟩
+          simp only [cmpBytes, n1, n2, Bool.or_self, Bool.false_eq_true, if_false]
+          rw [e1, e2, d1, d2]
+          simp [hcd]
+
+/-- **C13 (plain comparison, bytes).** On well-formed UTF-8 the byte-indexed loop of `gp_str_compare` (no fold, no
+collation) - which decodes at the same byte position of both operands and ends on the byte lengths - orders the
+strings exactly as their code point sequences are ordered. -/
+theorem plain_compare_is_codepoint_order (s1 s2 : List UInt8) (h1 : Gpc.Utf8.WellFormed s1) (h2 : Gpc.Utf8.WellFormed s2) :
+    ∃ a b r, s1 = encAll a ∧ s2 = encAll b ∧ cmpBytes s1 s2 (a.length + 1) = some r ∧
+      sgn r = compare false false false .n a b := by
+  obtain ⟨a, ha, e1⟩ := Gpc.Utf.wellFormed_is_encoding s1 h1
+  obtain ⟨b, hb, e2⟩ := Gpc.Utf.wellFormed_is_encoding s2 h2
+  have ha' : ∀ c ∈ a, c < 0x110000 := fun c hc => (ha c hc).1
+  have hb' : ∀ c ∈ b, c < 0x110000 := fun c hc => (hb c hc).1
+  obtain ⟨r, hr, hs⟩ := cmpBytes_encoding a b ha' hb' (a.length + 1) (by omega)
+  refine ⟨a, b, r, e1, e2, by rw [e1, e2]; exact hr, ?_⟩
+  simp only [compare, Bool.not_false, Bool.and_self, if_true, Bool.false_eq_true, if_false]
+  rw [hs]
 
 end Gpc.Compare
